@@ -172,12 +172,14 @@ def replay(p):
     except Exception as e:  # noqa
         exc = e
     refusal = exc is not None and type(exc).__name__ in sweep.REFUSALS[:2]
+    uni_ = {x for r in p["rankings"] for b in r for x in b}
+    is_complete = all({x for b in r for x in b} == uni_ for r in p["rankings"])     # from the raw rankings, not from the library's flag
     if chk == "raises":
         return exc is not None and not refusal, f"raised {type(exc).__name__}: {exc}" if exc is not None else "no exception"
     if chk == "complete-refused":
-        return ds.is_complete and refusal, f"complete={ds.is_complete}, refused={refusal}"
+        return is_complete and refusal, f"complete={is_complete}, refused={refusal}"
     if chk == "declared-true-refused":
-        return rel and refusal and not ds.is_complete, f"declared {rel}, refused={refusal} ({type(exc).__name__ if exc else None})"
+        return rel and refusal and not is_complete, f"declared {rel}, refused={refusal} ({type(exc).__name__ if exc else None})"
     if chk == "declared-false-accepted":
-        return (not rel) and exc is None and not ds.is_complete, f"declared {rel}, accepted={exc is None}"
+        return (not rel) and exc is None and not is_complete, f"declared {rel}, accepted={exc is None}"
     return sweep.replay(p)
